@@ -357,6 +357,14 @@ def EXPECTED_BRANCHES(ctx):
     for op in ('addE', 'subE', 'mulE', 'divE', 'rsubE', 'rdivE'):
         exp += ['stmt/bcasto/{}/{}/{}'.format(op, o, sh) for o in ('own-part', 'external')
                 for sh in ('distinct', 'shared')]
+    for cls in ('tensor', 'discr'):
+        exp += ['override/copy/{}/none/{}'.format(rc, cls) for rc in ('real', 'complex')]
+        exp += ['override/conj/{}/{}/{}'.format(rc, out, cls) for rc in ('real', 'complex')
+                for out in ('none', 'self', 'other')]
+        exp += ['override/{}/{}/none/{}'.format(f, rc, cls) for rc in ('real', 'complex')
+                for f in ('setreal', 'setimag')]
+        exp += ['ipowroute/{}/{}'.format(cls, r) for r in ('generic', 'nppower')]
+    exp += ['ipowroute/generic/generic', 'ipowroute/generic/raises']
     exp += ['stmt/pelemop/' + op for op in sorted(set(v for v in MODEL_OP.values() if v))]
     for f in ('mul', 'div'):
         for alias in ALIASES:
@@ -1195,6 +1203,244 @@ def run_pmuldiv(ctx, cases=None):
 
 
 # ---------------------------------------------------------------------------
+# NumpyTensor / DiscretizedSpaceElement overrides: copy, conj(out=), real / imag setters and
+# the exponent test of __ipow__ (Model/ElemOps.lean::tcopy/tconj/setReal/setImag/ipowRoute)
+
+def override_spaces():
+    import odl
+    return [('rn3', odl.rn(3), 'tensor'), ('rn2x3', odl.rn((2, 3)), 'tensor'),
+            ('f32_104', odl.rn(104, dtype='float32'), 'tensor'),
+            ('int7', odl.tensor_space(7, dtype='int64'), 'tensor'),
+            ('cn4', odl.cn(4), 'tensor'), ('c64_130', odl.cn(130, dtype='complex64'), 'tensor'),
+            ('cn2x2F', odl.cn((2, 2)), 'tensor'),
+            ('discr1d', odl.uniform_discr(0, 1, 5), 'discr'),
+            ('discr2d', odl.uniform_discr([0, 0], [1, 2], (3, 4)), 'discr'),
+            ('discr_c', odl.uniform_discr(0, 1, 4, dtype='complex128'), 'discr')]
+
+
+def _shares(a, b):
+    try:
+        return bool(np.shares_memory(np.asarray(a), np.asarray(b)))
+    except Exception:  # noqa
+        return False
+
+
+def override_cases(ctx):
+    rng = ctx.rng
+    for sname, space, cls in override_spaces():
+        # "real" for the buffer model = the dtype is not complex: space.is_real, or an integer
+        # dtype (there NumpyTensor.conj takes its generic branch, but ndarray.conj() returns the
+        # array itself, so the returned element wraps self's buffer exactly as `return self`)
+        is_real = not bool(space.is_complex)
+        for rep in range(1 if ctx.quick else 3):
+            yield dict(f='copy', out='none', v=None, space=sname, sp=space, cls=cls, real=is_real)
+            for out in ('none', 'self', 'other'):
+                yield dict(f='conj', out=out, v=None, space=sname, sp=space, cls=cls, real=is_real)
+            if np.issubdtype(space.dtype, np.integer):
+                # integer spaces: is_real is False (conj takes the generic branch, fine), but
+                # .real / .imag are not defined at all (NotImplementedError): no setter to model
+                continue
+            for f in ('setreal', 'setimag'):
+                for v in ('list', 'elem', 'scalar', 'ownview'):
+                    yield dict(f=f, out='none', v=v, space=sname, sp=space, cls=cls, real=is_real)
+
+
+def run_override_case(ctx, c):
+    rng = ctx.rng
+    space = c['sp']
+    x = rand_elem(space, rng)
+    o = rand_elem(space, rng) if c['out'] == 'other' else None
+    X = exact_list(flat(x))
+    O = exact_list(flat(o)) if o is not None else None
+    n = len(X)
+    is_int = np.issubdtype(space.dtype, np.integer)
+    V = None
+    arg = None
+    if c['v'] is not None:
+        rs = space.real_space if not c['real'] else space
+        if c['v'] == 'scalar':
+            sc = rng.choice([0, 1, -2, 3] if is_int else [0, 1, -2, 0.5, 3.25])
+            arg, V = sc, [(Fraction(sc), Fraction(0))] * n
+        elif c['v'] == 'ownview':
+            # x.real = x.imag / x.imag = x.real: the operand is a view of the element written to
+            if c['f'] == 'setreal':
+                arg = x.imag if not c['real'] else x
+                V = [(p[1], Fraction(0)) for p in X] if not c['real'] else list(X)
+            else:
+                arg = x.real
+                V = [(p[0], Fraction(0)) for p in X]
+        else:
+            ve = rand_elem(rs, rng)
+            V = exact_list(flat(ve))
+            arg = ve if c['v'] == 'elem' else ve.asarray().tolist()
+    line = 'tover f={} real={} out={} n={} x={}{}{}'.format(
+        c['f'], 1 if c['real'] else 0, c['out'], n, lv(X),
+        ' o=' + lv(O) if O is not None else '', ' v=' + lv(V) if V is not None else '')
+    res = None
+    try:
+        if c['f'] == 'copy':
+            res = x.copy()
+        elif c['f'] == 'conj':
+            res = x.conj() if c['out'] == 'none' else x.conj(out=x if c['out'] == 'self' else o)
+        elif c['f'] == 'setreal':
+            x.real = arg
+            res = x
+        else:
+            x.imag = arg
+            res = x
+        status = 'ok'
+    except Exception as e:  # noqa
+        status = 'err:' + type(e).__name__ + ':' + str(e)[:100]
+    problems = []
+    obs = None
+    conj = lambda q: [(p[0], -p[1]) for p in q]  # noqa
+    if c['f'] == 'setimag' and c['real']:
+        # documented: ValueError on a real space, nothing written
+        if not status.startswith('err:ValueError'):
+            problems.append('imag setter on a real space did not raise ValueError: ' + status)
+        if exact_list(flat(x)) != X:
+            problems.append('imag setter on a real space modified the element')
+        obs = 'raises' if status.startswith('err:') else 'ok'
+    elif status != 'ok':
+        problems.append(status)
+        obs = 'raises'
+    else:
+        XP = exact_list(flat(x))
+        OP = exact_list(flat(o)) if o is not None else None
+        R = exact_list(flat(res))
+        if c['f'] == 'copy':
+            exp, xexp = X, X
+            if res is x or _shares(res, x):
+                problems.append('copy() is / shares memory with the original')
+        elif c['f'] == 'conj':
+            exp = conj(X)
+            xexp = exp if c['out'] == 'self' else X
+            if c['out'] != 'none' and res is not (x if c['out'] == 'self' else o):
+                problems.append('conj(out=) did not return out')
+            if c['out'] == 'none' and not c['real'] and (res is x or _shares(res, x)):
+                problems.append('conj() on a complex space is / shares memory with self')
+        elif c['f'] == 'setreal':
+            exp = [(v[0], Fraction(0) if c['real'] else p[1]) for v, p in zip(V, X)]
+            xexp = exp
+        else:
+            exp = [(p[0], v[0]) for v, p in zip(V, X)]
+            xexp = exp
+        if R != exp:
+            bad = [i for i, (u, w) in enumerate(zip(R, exp)) if u != w]
+            problems.append('result wrong at {} entries, first {}: got {} expected {}'.format(
+                len(bad), bad[0], R[bad[0]], exp[bad[0]]))
+        if XP != xexp:
+            problems.append('self afterwards is not what the operation defines')
+        if o is not None and OP != exp:
+            problems.append('out does not hold the result')
+        if res not in (space if c['f'] != 'x' else space):
+            problems.append('result not in the space')
+        rid = 0 if (res is x or _shares(res, x)) else (1 if o is not None and (res is o or _shares(res, o)) else 2)
+        obs = dict(r=rid, res=R, x=XP, o=OP)
+    return line, obs, problems
+
+
+def run_overrides(ctx):
+    from unittest import mock
+    import odl
+    from odl.set.space import LinearSpaceElement
+    batch, lines = [], []
+    for c in override_cases(ctx):
+        line, obs, problems = run_override_case(ctx, c)
+        batch.append((c, obs, problems))
+        lines.append(line)
+    # --- where x **= p goes
+    routes = []
+    generic = LinearSpaceElement.__ipow__
+    pspace = odl.ProductSpace(odl.rn(2), 2)
+    for sname, space, cls in [(a, b, k) for a, b, k in override_spaces() if a in
+                              ('rn3', 'f32_104', 'cn4', 'discr1d', 'discr_c', 'int7')] + \
+            [('pspace', pspace, 'generic')]:
+        is_int = np.issubdtype(base_dtype(space), np.integer)
+        for p in [2, 3, 0, 1, 2.0, 3.0, 5.0, 0.0, Fraction(4, 2)] + \
+                ([] if is_int else [-1, -2.0, -3.0, 0.5, 1.5, -0.5, 2.5]):
+            calls = []
+
+            def spy(self, q, _calls=calls):
+                _calls.append(q)
+                return generic(self, q)
+            if cls == 'generic':
+                x = rand_elem(space, ctx.rng, nonzero=True)
+            else:
+                # perfect squares of dyadic values: np.power(x, k/2) is exactly representable
+                base = rand_elem(space, ctx.rng, nonzero=True)
+                x = base * base if not is_int and float(p) != int(p) else base
+                if float(p) != int(p):
+                    x = space.element(np.abs(np.asarray(x)))
+            X = exact_list(flat(x))
+            pre = np.array(flat(x))
+            try:
+                with mock.patch.object(LinearSpaceElement, '__ipow__', spy):
+                    y = x
+                    y **= p
+                if calls:
+                    obs = 'generic:{}'.format(int(calls[0]))
+                else:
+                    obs = 'nppower'
+                err = None
+            except ValueError as e:
+                obs, err = ('raises' if 'expected integer' in str(e) else 'err:' + str(e)[:80]), e
+            except Exception as e:  # noqa
+                obs, err = 'err:' + type(e).__name__ + ':' + str(e)[:80], e
+            problems = []
+            if err is None:
+                if y is not x:
+                    problems.append('x **= p returned a different object')
+                if float(p) == int(p):
+                    exp = oracle_elem('pow{}'.format(int(p)), X, None, None, None)
+                    if exact_list(flat(x)) != exp:
+                        problems.append('x **= {} is not the entry-wise power'.format(p))
+                else:
+                    want = np.power(pre.astype(complex) if np.iscomplexobj(pre) else pre.astype(float),
+                                    float(p))
+                    if not np.allclose(np.array(flat(x)), want, rtol=1e-5, atol=0):
+                        problems.append('x **= {} deviates from np.power on the data'.format(p))
+            elif obs != 'raises':
+                problems.append(obs)
+            elif exact_list(flat(x)) != X:
+                problems.append('x **= {} raised but modified x'.format(p))
+            tensor = 1 if cls in ('tensor', 'discr') else 0
+            routes.append((sname, cls, p, obs, problems,
+                           'ipowroute tensor={} p={}'.format(tensor, fs(Fraction(p)))))
+    outs = core.run_driver('C01', lines + [r[5] for r in routes])
+    for (c, obs, problems), ans, line in zip(batch, outs, lines):
+        desc = {'kind': 'override', 'space': c['space'], 'f': c['f'], 'out': c['out'], 'v': c['v'],
+                'line': line[:300]}
+        ctx.case(('override', c['space'], c['f'], c['out'], c['v']))
+        ctx.hit('override/{}/{}/{}/{}'.format(c['f'], 'real' if c['real'] else 'complex', c['out'],
+                                              c['cls']))
+        if problems:
+            ctx.violation('override {} space={} out={} v={}'.format(c['f'], c['space'], c['out'], c['v']),
+                          '; '.join(problems)[:400], desc)
+        if obs == 'raises' or ans == 'raises':
+            if obs != ans:
+                ctx.disagree(desc, obs if isinstance(obs, str) else 'ok', ans[:200])
+            continue
+        if not ans.startswith('ok') or not isinstance(obs, dict):
+            ctx.disagree(desc, str(obs)[:200], ans[:200])
+            continue
+        f = dict(t.split('=', 1) for t in ans.split()[1:])
+        got = dict(r=int(f['r']), res=parse_cl(f['res']), x=parse_cl(f['x']),
+                   o=parse_cl(f['o']) if obs['o'] is not None else None)
+        if got != obs:
+            ctx.disagree(desc, {k: (v[:4] if isinstance(v, list) else v) for k, v in obs.items()},
+                         ans[:300])
+    for (sname, cls, p, obs, problems, line), ans in zip(routes, outs[len(lines):]):
+        desc = {'kind': 'ipowroute', 'space': sname, 'p': str(p), 'line': line}
+        ctx.case(('ipowroute', sname, str(p)))
+        ctx.hit('ipowroute/{}/{}'.format(cls, ans.split(':')[0]))
+        if problems:
+            ctx.violation('x **= p space={} p={}'.format(sname, p), '; '.join(problems)[:300], desc)
+        if obs != ans:
+            ctx.disagree(desc, obs, ans)
+
+
+# ---------------------------------------------------------------------------
 # malformed calls of LinearSpace.lincomb: rejected before anything is written
 
 def front_cases(ctx):
@@ -1732,6 +1978,7 @@ def run(ctx, deep=False):
                 (c['y'] is not c['x'] and parse_cl(f['y']) != YP):
             ctx.disagree(desc, {'res': R[:6], 'x': XP[:6], 'y': YP[:6]}, ans[:300])
     run_pmuldiv(ctx)
+    run_overrides(ctx)
     # --- malformed calls
     run_front(ctx)
     run_front_muldiv(ctx)
